@@ -269,7 +269,7 @@ impl Substitute for syn::ExprArray {
             .map(|elem| elem.substitute(substitutions))
             .multi_cartesian_product()
             .map(|elems| Self {
-                elems: elems.into_iter().collect(),
+                elems: repunctuate(&self.elems, elems),
                 ..self.clone()
             })
             .collect()
@@ -496,7 +496,7 @@ impl Substitute for syn::ExprCall {
                         .multi_cartesian_product(),
                 )
                 .map(|(func, args)| Self {
-                    args: args.into_iter().collect(),
+                    args: repunctuate(&self.args, args),
                     func: Box::new(func),
                     ..self.clone()
                 })
@@ -585,7 +585,7 @@ impl Substitute for syn::ExprClosure {
             iproduct!(lifetimes, inputs, output, body)
                 .map(|(lifetimes, inputs, output, body)| Self {
                     lifetimes,
-                    inputs: inputs.into_iter().collect(),
+                    inputs: repunctuate(&self.inputs, inputs),
                     output,
                     body: Box::new(body),
                     ..self.clone()
@@ -1014,7 +1014,7 @@ impl Substitute for syn::ExprMethodCall {
                 .map(|((receiver, turbofish), args)| Self {
                     receiver: Box::new(receiver),
                     turbofish,
-                    args: args.into_iter().collect(),
+                    args: repunctuate(&self.args, args),
                     ..self.clone()
                 })
                 .collect()
@@ -1271,7 +1271,7 @@ impl Substitute for syn::ExprStruct {
                 .map(|(qself, path, fields, rest)| Self {
                     qself,
                     path,
-                    fields: fields.into_iter().collect(),
+                    fields: repunctuate(&self.fields, fields),
                     rest,
                     ..self.clone()
                 })
@@ -1357,7 +1357,7 @@ impl Substitute for syn::ExprTuple {
             .map(|elem| elem.substitute(substitutions))
             .multi_cartesian_product()
             .map(|elems| Self {
-                elems: elems.into_iter().collect(),
+                elems: repunctuate(&self.elems, elems),
                 ..self.clone()
             })
             .collect()
